@@ -354,7 +354,7 @@ func runC10(res *Result, rng *RNG, tier string, outDir string) {
 	res.Rule = "three streams, every case run through the whole pipeline (Unmarshal, String, Code, RevocationIds, GetBlockID, Serialize, CreateBlock+Append, Seal, AuthorizerFor, a fixed authorizer panel, Authorize, Query) in a WORKER PROCESS (a panic on a library-owned goroutine cannot be recovered): (1) raw byte strings: random, truncations and bit flips of valid tokens; (2) schema-valid messages with adversarial field values generated from the schema (symbol indexes 28, 1023, 2^31, 2^32, 2^63, 2^64-1; variables in facts; empty / heterogeneous / nested sets and sets of bytes; ill-formed operator sequences; operators without kind or with unknown kind; terms without member; versions 0,2,4,absent; duplicate and non-UTF-8 symbols; next secrets of length 0,3,31,33,64), VALIDLY SIGNED by an attacker root key so that evaluation is reached; (3) envelope mutations of library-built tokens. Oracle: no stage may panic or kill the worker. The Coq model predicts the class of every stage (unmarshal error class, verification, verdict, world, query result). Non-trivial = the input reaches block decoding (streams 2,3) ; distinct by input bytes."
 	nAdv, nRaw := 260, 120
 	if tier == "thorough" {
-		nAdv, nRaw = 8000, 3000
+		nAdv, nRaw = 3000, 1200
 	}
 	var inputs []advToken
 	inputs = append(inputs, genAdversarial(rng.Fork(), nAdv)...)
@@ -430,6 +430,7 @@ func runC10(res *Result, rng *RNG, tier string, outDir string) {
 	os.Remove(inFile)
 	// oracle + model cases
 	var lines, descs []string
+	var lineIn []advToken
 	for i, in := range inputs {
 		r := results[i]
 		nontrivial := !strings.HasPrefix(in.Name, "raw:")
@@ -461,26 +462,26 @@ func runC10(res *Result, rng *RNG, tier string, outDir string) {
 			continue
 		}
 		lines = append(lines, c10Case(in, r))
+		lineIn = append(lineIn, in)
 		descs = append(descs, in.Name+" "+trunc(fmt.Sprintf("%x", in.Bytes), 120))
 	}
-	cf := NewCasesFile("Base Term Expr Datalog Authz DTerm Symbols Chain Wire Token Corr")
-	orc := newOracle()
-	for _, in := range inputs {
-		if c, err := containerOfBytes(in.Bytes); err == nil && len(in.Root) == 32 {
-			f := &family{orc: orc}
-			f.addVerifyOracle(in.Root, c)
-		}
-	}
-	cf.Raw(orc.coq(""))
 	sc := c10Panel()
 	ops := make([]string, len(sc.Ops))
 	for i, o := range sc.Ops {
 		ops[i] = o.coq()
 	}
-	cf.Raw("Definition panel_ops : list aop := " + coqList(ops) + ".\n")
-	cf.Raw("Definition cases : list pipe_case := [\n  " + joinLines(lines) + "].\n")
-	cf.Raw("Definition M := Eval vm_compute in mismatches (pipe_ok pub_tbl ver_tbl panel_ops) cases.\nPrint M.\n")
-	cf.WriteTo(outDir, "Cases_C10.v")
+	panel := "Definition panel_ops : list aop := " + coqList(ops) + ".\n"
+	WriteShardsFn(res, outDir, "C10", "Base Term Expr Datalog Authz DTerm Symbols Chain Wire Token Corr",
+		func(start, end int) string {
+			orc := newOracle()
+			for _, in := range lineIn[start:end] {
+				if c, err := containerOfBytes(in.Bytes); err == nil && len(in.Root) == 32 {
+					f := &family{orc: orc}
+					f.addVerifyOracle(in.Root, c)
+				}
+			}
+			return orc.coq("") + panel
+		}, "pipe_case", "pipe_ok pub_tbl ver_tbl panel_ops", lines, 250)
 	res.ModelCases = len(lines)
 	res.CaseDescs = descs
 	_ = time.Now
